@@ -89,3 +89,8 @@ P("C20", "other", rac=["purity"],
 P("C14", "model_checking", rac=["structure"],
   bounded="parsed chain structure == structure the input was rendered from: 22 operators x deferred x 12 (thorough 20) operand shapes, all adjacent operator pairs x 4 deferred patterns, 10 wrappers x 22 inner operators x 3 closing shapes",
   not_decided="operands outside the pool; split-point logic inside syn")
+
+P("C17", "proof", kani={"timeout": "1500s", "compile_clause": True},
+  unbounded="every name constructor emits prefix ++ dec(i) (++ sep ++ dec(j) ++ sep ++ dec(k)) with the pieces as they stand in the source; injectivity within a family and pairwise distinctness of all families for ALL indices (lemma_names_never_clash)",
+  bounded="12 x 12 program with block captures on every action; 11 named branches with handler; nesting of the 4 executable kinds to depth 3 inside operands, captures and handlers",
+  not_decided="identifier literals inside quote! bodies vs user identifiers (macro hygiene); spawn kinds")
